@@ -87,6 +87,20 @@ pub fn trap<R>(f: impl FnOnce() -> R) -> Result<R, String> {
     }
 }
 
+/// Another value in the same abstract state, obtained the way a user could obtain it: 1 = clone(), 2 = bincode round
+/// trip, 3 = clone_from() into `donor` (a value that held something else before).
+pub fn derived<V: Clone + serde::Serialize + serde::de::DeserializeOwned>(v: &V, how: u8, donor: impl FnOnce() -> V) -> V {
+    match how {
+        1 => v.clone(),
+        2 => bincode::deserialize(&bincode::serialize(v).unwrap()).unwrap(),
+        _ => {
+            let mut d = donor();
+            d.clone_from(v);
+            d
+        }
+    }
+}
+
 pub fn h64<T: Hash>(t: &T) -> u64 {
     let mut h = std::collections::hash_map::DefaultHasher::new();
     t.hash(&mut h);
